@@ -787,7 +787,7 @@ inline void prop_c15(const vf::Case& c, Ctx& ctx)
         auto lc = w.live_crates();
         auto lt = w.live_tracks();
         bool have = !lc.empty() && !lt.empty();
-        int op = static_cast<int>(s.below(16));
+        int op = static_cast<int>(s.below(17));
         auto any_crate = [&]() -> CrateM* { return w.crates.empty() ? nullptr : &w.crates[s.below(w.crates.size())]; };  // live or removed
         auto live_crate = [&]() -> CrateM* { return lc.empty() ? nullptr : &w.crates[lc[s.below(lc.size())]]; };
         auto live_track = [&]() -> TrackM* { return lt.empty() ? nullptr : &w.tracks[lt[s.below(lt.size())]]; };
@@ -1041,6 +1041,52 @@ inline void prop_c15(const vf::Case& c, Ctx& ctx)
             case 12:
             {  // observers on everything live
                 hostile_call(w, "observe", [&] { (void)observe(w.db, w.v2); });
+                break;
+            }
+            case 16:
+            {  // cycle probe: a crate with descendants is (sometimes) moved legally first, then re-parented under one of its descendants
+                std::vector<CrateM*> cand;
+                for (auto i : lc)
+                    if (!w.subtree(w.crates[i].id).empty())
+                        cand.push_back(&w.crates[i]);
+                if (cand.empty())
+                    break;
+                CrateM* m = cand[s.below(cand.size())];
+                if (s.coin())
+                {
+                    w.hist += " | set_parent(" + std::to_string(m->id) + " -> none)";
+                    try
+                    {
+                        m->handle.set_parent(std::nullopt);
+                        if (m->parent != 0)
+                        {
+                            erase_from(w.order[m->parent], m->id);
+                            m->parent = 0;
+                            w.order[0].push_back(m->id);
+                        }
+                    }
+                    catch (const std::exception&)
+                    {
+                        w.hist += "!";  // e.g. a root crate of that name exists already
+                    }
+                }
+                auto sub = w.subtree(m->id);
+                auto it = sub.begin();
+                std::advance(it, s.below(sub.size()));
+                CrateM* d = w.by_id(*it);
+                w.hist += " | set_parent(" + std::to_string(m->id) + " -> descendant " + std::to_string(d->id) + ")";
+                bool threw = false;
+                try
+                {
+                    m->handle.set_parent(d->handle);
+                }
+                catch (const std::exception&)
+                {
+                    threw = true;
+                }
+                VF_CHECK(threw, w.hist << ": re-parenting a crate under its own descendant was accepted");
+                ctx.label(fam + "set_parent(descendant)");
+                hostile_seen = hostile_seen || have;
                 break;
             }
             case 13:
